@@ -122,8 +122,11 @@ def run_job(job, io):
     ns = 'ns'
     kwd = {'namespace': ns}
     n_custom = 1 + tape.draw(4, 'n-custom')
+    kept_lists = []  # children / entries lists that custom flatten functions handed to the engine
     for cls in U.CUSTOM_CLASSES[:n_custom]:
-        reg.register(cls, ns, style=tape.draw(4, 'style'))
+        f0 = reg.register(cls, ns, style=tape.draw(4, 'style'))
+        f0.keep = kept_lists
+        f0.keep_entries = kept_lists
     ctx = gen.swarm_ctx(tape, custom_classes=U.CUSTOM_CLASSES[:n_custom])
     pool = []
     weak_checks = []
@@ -234,6 +237,22 @@ def run_job(job, io):
                 if d:
                     viol('input-mutated', site, 'source tree changed by %s: %s' % (route, d))
                 add(spec, tree, leaves, route)
+            elif kind == 'mutate_source' and kept_lists and tape.draw(4, 'ms-kept') == 3:
+                # the user keeps the list his custom flatten function returned (children or path entries) and changes it later
+                target = kept_lists[tape.draw(len(kept_lists), 'kept-i')]
+                how = tape.choice(('append', 'clear', 'reorder', 'pop'), 'kept-how')
+                detail = 'custom-returned-list:%s' % how
+                site = 'mutate_source:' + detail
+                io.progress({'site': site, 'tape': tape.values})
+                if how == 'append':
+                    target.append('junk')
+                elif how == 'clear':
+                    target.clear()
+                elif how == 'reorder':
+                    target.reverse()
+                elif target:
+                    target.pop()
+                del kept_lists[:-24]
             elif kind == 'mutate_source':
                 e = pick()
                 conts = [x for x in walk(e.tree) if py_children(x) is not None and not isinstance(x, tuple)] if e.tree is not None else []
@@ -402,6 +421,7 @@ def run_job(job, io):
                     for o in others:
                         shared.update(id(x) for x in walk(o.tree))
                     del uniq
+                    kept_lists.clear()  # the harness's own copies of children lists hold leaves
                     gc.collect()
                     alive = [r() for r in refs if r() is not None and id(r()) not in shared]
                     probes['leaf-release-checked'] += 1
